@@ -93,6 +93,7 @@ func TestC07(t *testing.T) {
 			}
 		}
 	}
+	c07CrossFamily(m, v, rng)
 	v.ModelAsks = m.N
 	v.Write(t)
 }
@@ -145,4 +146,48 @@ func c07Verify(m *Model, v *Verdict, rng *RNG, ct, et int32, key []byte, usage u
 		check("other-usage", key, data, sum, u, false)
 	}
 	_ = strings.Join
+}
+
+// c07CrossFamily: the same key bytes and the same usage under two checksum types that share a key length
+// (15/19, 16/20), in both orders and interleaved: each value must still be the RFC's (nothing derived for
+// one family may leak into the other), and the same for message encryption keys.
+func c07CrossFamily(m *Model, v *Verdict, rng *RNG) {
+	pairs := [][2]int32{{17, 19}, {18, 20}}
+	for _, p := range pairs {
+		for round := 0; round < 4; round++ {
+			key := randKey(rng, p[0])
+			usage := usageSet[rng.Intn(len(usageSet))]
+			data := rng.Bytes(1 + rng.Intn(40))
+			order := []int32{p[0], p[1], p[0], p[1]}
+			if round%2 == 1 {
+				order = []int32{p[1], p[0], p[1], p[0]}
+			}
+			for i, et := range order {
+				e := mustEtype(et)
+				var sum []byte
+				var cerr error
+				pan := Protect(func() { sum, cerr = e.GetChecksumHash(key, data, usage) })
+				op := fmt.Sprintf("cr.cksum %d %s %d %s", et, X(key), usage, X(data))
+				mr := m.Ask(op)
+				v.Case(fmt.Sprintf("cross/%d/%d/%d", p[0], round, i), "value after the other family used the same key and usage")
+				if cerr != nil || pan != "" || mr != "ok "+X(sum) {
+					v.Violate("failing-input", fmt.Sprintf("c07:cross-family:%d", et), "a checksum computed after another checksum type was used with the same key bytes and usage is not the RFC value", map[string]string{"op": op, "go": X(sum) + " " + pan, "model": mr, "order": fmt.Sprint(order), "step": fmt.Sprint(i)})
+					return
+				}
+				ok := false
+				Protect(func() { ok = e.VerifyChecksum(key, data, sum, usage) })
+				if !ok {
+					v.Violate("failing-input", fmt.Sprintf("c07:cross-family-verify:%d", et), "VerifyChecksum rejects the RFC value after another checksum type was used with the same key bytes and usage", map[string]string{"op": op, "order": fmt.Sprint(order), "step": fmt.Sprint(i)})
+					return
+				}
+				// and encryption under the same key bytes
+				ct, err, pan2 := goEncrypt(et, key, data, usage)
+				got := m.Ask(fmt.Sprintf("cr.dec %d %s %d %s", et, X(key), usage, X(ct)))
+				if err != nil || pan2 != "" || got != "ok "+X(data) {
+					v.Violate("failing-input", fmt.Sprintf("c07:cross-family-encrypt:%d", et), "a message encrypted after another etype was used with the same key bytes and usage is not decrypted by the RFC implementation", map[string]string{"et": itoa(et), "key": X(key), "usage": itoa(usage), "model": got, "order": fmt.Sprint(order), "step": fmt.Sprint(i)})
+					return
+				}
+			}
+		}
+	}
 }
